@@ -40,15 +40,7 @@ impl Colour {
         match self {
             Colour::Rgb(c) => Some([c[0], c[1], c[2], 255]),
             Colour::Rgba(c) => Some(*c),
-            Colour::Text(s) => {
-                let h = s.strip_prefix('#')?;
-                let p = |i: usize| u8::from_str_radix(h.get(2 * i..2 * i + 2)?, 16).ok();
-                match h.len() {
-                    6 => Some([p(0)?, p(1)?, p(2)?, 255]),
-                    8 => Some([p(0)?, p(1)?, p(2)?, p(3)?]),
-                    _ => None,
-                }
-            }
+            Colour::Text(s) => text_colour_rgba(s),
         }
     }
     pub fn to_json(&self) -> Value {
@@ -279,6 +271,43 @@ impl Spec {
     }
 }
 
+/// CSS colour names the workloads use (SVG 1.1 / CSS3 keyword values)
+pub const NAMED_COLOURS: [(&str, [u8; 3]); 20] = [
+    ("red", [255, 0, 0]), ("navy", [0, 0, 128]), ("black", [0, 0, 0]), ("rebeccapurple", [102, 51, 153]), ("white", [255, 255, 255]), ("lime", [0, 255, 0]), ("green", [0, 128, 0]),
+    ("blue", [0, 0, 255]), ("orange", [255, 165, 0]), ("teal", [0, 128, 128]), ("silver", [192, 192, 192]), ("gray", [128, 128, 128]), ("grey", [128, 128, 128]), ("maroon", [128, 0, 0]),
+    ("fuchsia", [255, 0, 255]), ("aqua", [0, 255, 255]), ("yellow", [255, 255, 0]), ("olive", [128, 128, 0]), ("purple", [128, 0, 128]), ("cornflowerblue", [100, 149, 237]),
+];
+
+/// The RGBA value of a colour given as text, for the notations the workloads generate: `#rrggbb`, `#rrggbbaa`, the
+/// shorthands `#rgb` / `#rgba` (every digit doubled), keyword names, `rgb(r,g,b)`.
+pub fn text_colour_rgba(s: &str) -> Option<[u8; 4]> {
+    if let Some(h) = s.strip_prefix('#') {
+        if !h.bytes().all(|b| b.is_ascii_hexdigit()) {
+            return None;
+        }
+        let p = |i: usize| u8::from_str_radix(h.get(2 * i..2 * i + 2)?, 16).ok();
+        let d = |i: usize| u8::from_str_radix(h.get(i..i + 1)?, 16).ok().map(|x| x * 17);
+        return match h.len() {
+            6 => Some([p(0)?, p(1)?, p(2)?, 255]),
+            8 => Some([p(0)?, p(1)?, p(2)?, p(3)?]),
+            3 => Some([d(0)?, d(1)?, d(2)?, 255]),
+            4 => Some([d(0)?, d(1)?, d(2)?, d(3)?]),
+            _ => None,
+        };
+    }
+    if let Some((_, c)) = NAMED_COLOURS.iter().find(|(n, _)| n.eq_ignore_ascii_case(s)) {
+        return Some([c[0], c[1], c[2], 255]);
+    }
+    let inner = s.strip_prefix("rgb(")?.strip_suffix(')')?;
+    let parts: Vec<&str> = inner.split(',').map(|x| x.trim()).collect();
+    if parts.len() != 3 {
+        return None;
+    }
+    let v: Option<Vec<u8>> = parts.iter().map(|x| x.parse::<u8>().ok()).collect();
+    let v = v?;
+    Some([v[0], v[1], v[2], 255])
+}
+
 pub fn random_colour(rng: &mut Rng, allow_alpha: bool) -> Colour {
     match rng.below(6) {
         0 => Colour::Rgb([rng.byte(), rng.byte(), rng.byte()]),
@@ -286,7 +315,24 @@ pub fn random_colour(rng: &mut Rng, allow_alpha: bool) -> Colour {
         2 => Colour::Rgba([rng.byte(), rng.byte(), rng.byte(), 255]),
         3 => Colour::Text(format!("#{:02x}{:02x}{:02x}", rng.byte(), rng.byte(), rng.byte())),
         4 => Colour::Text(format!("#{:02X}{:02X}{:02X}", rng.byte(), rng.byte(), rng.byte())),
-        _ => Colour::Text(rng.pick(&["red", "navy", "black", "rebeccapurple", "rgb(1,2,3)"]).to_string()),
+        _ => match rng.below(4) {
+            // the notations CSS/SVG offer besides six hex digits: three-digit shorthand (digits NOT all equal most of
+            // the time), four-digit shorthand with alpha, keyword names, functional notation
+            0 => {
+                let hexd = b"0123456789abcdefABCDEF";
+                let mut t = String::from("#");
+                for _ in 0..3 {
+                    t.push(*rng.pick(hexd) as char);
+                }
+                if rng.chance(1, 3) {
+                    t.push(if allow_alpha { *rng.pick(b"0137f") as char } else { *rng.pick(b"fF") as char });
+                }
+                Colour::Text(t)
+            }
+            1 => Colour::Text(format!("#{:02x}{:02x}{:02x}{:02x}", rng.byte(), rng.byte(), rng.byte(), if allow_alpha { *rng.pick(&[0u8, 1, 127, 254, 255]) } else { 255 })),
+            2 => Colour::Text(NAMED_COLOURS[rng.below(NAMED_COLOURS.len())].0.to_string()),
+            _ => Colour::Text(if rng.chance(1, 2) { "rgb(1,2,3)".to_string() } else { format!("rgb({}, {}, {})", rng.byte(), rng.byte(), rng.byte()) }),
+        },
     }
 }
 
